@@ -39,11 +39,11 @@ impl Comment {
         match indent.cmp(&existing) {
             Ordering::Greater => {
                 let start = buf.format().get_indent(indent - existing);
-                buf.add_str(&self.0.replace('\n', start));
+                buf.add_str(&self.0.replace('\n', &start));
             }
             Ordering::Less => {
                 let start = buf.format().get_indent(existing - indent - 1);
-                buf.add_str(&self.0.replace(start, "\n"));
+                buf.add_str(&self.0.replace(&*start, "\n"));
             }
             Ordering::Equal => {
                 buf.add_str(&self.0);
